@@ -23,6 +23,9 @@ func make{{.Name}}s(opts ...func(*option[{{.Type}}])) Column {
 					fill[offset>>6] |= 1 << (offset & 0x3f)
 					data[offset] = r.{{.Name}}()
 				case commit.Merge:
+					if !fill.Contains(offset) {
+						data[offset] = 0 // no value, do not merge with a stale one
+					}
 					fill[offset>>6] |= 1 << (offset & 0x3f)
 					data[offset] = r.Swap{{.Name}}(opts.Merge(data[offset], r.{{.Name}}()))
 				case commit.Delete:
